@@ -174,7 +174,7 @@ func exposedChannels(p *Prog, d *Disc) map[string]bool {
 			for _, in := range b.Instrs {
 				if ret, ok := in.(*ssa.Return); ok {
 					for _, rv := range ret.Results {
-						role := symChanRole(p.Sym(rv))
+						role := symChanRole(p.SymX(rv)) // (through a pure accessor: return dsc.output.reader())
 						if strings.HasPrefix(role, "field:") {
 							out[role] = true
 						}
